@@ -176,7 +176,12 @@ def run_unit(unit, repo=None, rlimit=30, extra_args=None, variant=None, mutate=N
     for d in errors:
         msg = d.get("message", "")
         spans = d.get("spans", [])
-        sl = [(s.get("line_start"), s.get("is_primary"), s.get("label") or "") for s in spans]
+        sl = []
+        for sp in spans:
+            a, b = sp.get("line_start"), sp.get("line_end") or sp.get("line_start")
+            # a multi-line clause: every line of the span (the label sits on its last line)
+            for ln_ in range(a, min(b, a + 40) + 1):
+                sl.append((ln_, sp.get("is_primary"), sp.get("label") or ""))
         if any(org(l).get("kind") == "canary" for l, _, _ in sl):
             canary_failed = True
             continue
